@@ -4,7 +4,9 @@
 //   pf    flags of the tree under test: bit 0 = fill_pixels on planar step-iterator views compiles (harness/C04/probe_fill_planar_step.cpp);
 //         without it such an op yields the observation err:no-compile; bit 1 (read by the model only) = image::allocate_ keeps the requested
 //         dimensions of a degenerate (w x 0 / 0 x h) image
-//   alg   copy | fill | equal | foreach | foreachpos | generate | tr1 | tr2 | trpos | cconv | imgeq
+//   alg   copy | fill | equal | foreach | foreachpos | generate | tr1 | tr2 | trpos | cconv | imgeq | fillx | genx | tr1x
+//         fillx / genx / tr1x (rgb8, rgb8p): like fill / generate / tr1 but the value / the functor's result is a bgr8_pixel_t, a compatible
+//                pixel type with another channel order: channels must be paired by colour, not by storage position
 //         imgeq: two gil::image objects (kinds ignored): image 1 is w x h with alignment <so>, image 2 is (w + arg) x h with alignment <do>
 //                (arg = 1: different dimensions); observation eq=<img1 == img2> ne=<img1 != img2>, values of image 2
 //   org   rgb8 | rgb8p | rgb565 | gray1 | gray4 | rgb222 | rgb32f            (cconv: org = source organisation gray8|rgb8, dst = rgb8 / bgr8)
@@ -187,6 +189,22 @@ template <typename OS, typename OD> static std::string run_op(std::vector<std::s
             if constexpr (std::is_same<OD, OrgT<1>>::value && !std::is_same<std::decay_t<decltype(dst)>, std::decay_t<decltype(D.under())>>::value) { out = "err:no-compile"; return; } else
 #endif
             gil::fill_pixels(dst, OD::enc(arg));
+        }
+        else if (alg == "fillx" || alg == "genx" || alg == "tr1x") {
+            if constexpr (std::is_same<OD, OrgT<0>>::value || std::is_same<OD, OrgT<1>>::value) {
+                using X = OrgT<8>;     // bgr8: same colour space, other channel order
+#ifndef C04_PLANAR_STEP_FILL
+                if constexpr (std::is_same<OD, OrgT<1>>::value && !std::is_same<std::decay_t<decltype(dst)>, std::decay_t<decltype(D.under())>>::value) { if (alg == "fillx") { out = "err:no-compile"; return; } }
+#endif
+                if (alg == "fillx") {
+#ifndef C04_PLANAR_STEP_FILL
+                    if constexpr (std::is_same<OD, OrgT<1>>::value && !std::is_same<std::decay_t<decltype(dst)>, std::decay_t<decltype(D.under())>>::value) {} else
+#endif
+                    gil::fill_pixels(dst, X::enc(arg));
+                }
+                else if (alg == "genx") { long k = 0; gil::generate_pixels(dst, [&]() { return X::enc((arg + k++) % OD::RANGE); }); }
+                else gil::transform_pixels(src, dst, [&](auto const& p) { return X::enc((OS::dec(p) * 3 + arg) % OD::RANGE); });
+            } else { out = "bad-op:alg"; return; }
         }
         else if (alg == "equal") {
 #ifdef C04_NO_PLANAR_EQUAL
